@@ -49,6 +49,7 @@ type CheckSpec struct {
 // (e.g. the BCH position-set sweep of C09), run as a sub-command.
 type ExtraCheck struct {
 	Name     string   `json:"name"`
+	Pkg      string   `json:"pkg"` // package directory (relative) of the replay harness
 	Quick    []string `json:"quick"`
 	Thorough []string `json:"thorough"`
 }
@@ -389,7 +390,35 @@ func runCheck(prop, tier string, repo, hdir string, jobs int, seed int64) int {
 		if len(args) == 0 {
 			continue
 		}
-		res, vio, err := runExtra(ld, ex.Name, args, jobs)
+		res, vio, err := runExtra(ld, ex.Name, args, jobs, func(harness string, models []map[string]int64) ([]string, error) {
+			// native replay of counterexamples of an extra job through a replay harness
+			mdir := filepath.Join(tmp, "models-extra-"+ex.Name)
+			os.MkdirAll(mdir, 0755)
+			for k, m := range models {
+				mf := modelFile{Harness: harness, Ints: m, Bytes: map[string]string{}, Params: map[string]int64{}}
+				b, _ := json.MarshalIndent(mf, "", " ")
+				os.WriteFile(filepath.Join(mdir, fmt.Sprintf("x%03d.json", k)), b, 0644)
+			}
+			verdicts, out, err := nativeReplay(repo, ovPath, ex.Pkg, mdir, false)
+			if err != nil {
+				return nil, fmt.Errorf("native replay failed: %v\n%s", err, tail(out, 20))
+			}
+			var files []string
+			for name, vd := range verdicts {
+				if strings.HasPrefix(vd[1], "reproduced: ") {
+					rdir := filepath.Join(root, "replays", prop)
+					if d := os.Getenv("VERIF_EVIDENCE_DIR"); d != "" {
+						rdir = filepath.Join(d, "replays", prop)
+					}
+					os.MkdirAll(rdir, 0755)
+					dst := filepath.Join(rdir, harness+"-"+name)
+					b, _ := os.ReadFile(filepath.Join(mdir, name))
+					os.WriteFile(dst, b, 0644)
+					files = append(files, dst)
+				}
+			}
+			return files, nil
+		})
 		if err != nil {
 			engineErrs = append(engineErrs, "extra "+ex.Name+": "+err.Error())
 		}
